@@ -1,7 +1,13 @@
 #!/bin/bash
-# Build the whole framework offline from files on disk: model, proofs, drivers.
-set -e
+# Build the framework offline from files on disk: generated tables, then the proof modules and drivers of every
+# registered check (harness/drivers.txt, written by mkmanifest.py).  Targets are built one by one so that one broken
+# module cannot hide the others; a target that fails here is reported by its own check.
 cd "$(dirname "$0")/.."
-/venv/bin/python harness/extract.py >/dev/null
+/venv/bin/python harness/extract.py >/dev/null || echo "extract failed (reported by the checks)"
 cd lean
-lake build BareModel BareProofs $(cat ../harness/drivers.txt)
+RC=0
+for T in $(cat ../harness/drivers.txt); do
+  lake build "$T" >/tmp/verif_setup_$$.log 2>&1 || { echo "setup: target $T failed"; tail -5 /tmp/verif_setup_$$.log; }
+done
+rm -f /tmp/verif_setup_$$.log
+exit 0
